@@ -490,13 +490,40 @@ def gen_access2(rng):
             x = rng.random(); e = "e%d" % rng.randrange(nE); ty = rng.randrange(NTY)
             ts.append(rng.choice(["mut:%d" % ty, "mut:%d" % ty, "ins:%d" % ty, "emut:%s:%d" % (e, ty), "eins:%s:%d" % (e, ty), "res:%d" % ty, "rem:%d" % ty]))
         setup.append("on %s %d %s" % (rng.choice("ppc"), rng.randrange(g.ndefs), " ".join(ts)))
+    # a third of the scenarios run whole frames (`App::update` clears Bevy's change trackers) and use batches of a single
+    # resource action, which the harness sends through the `World`-level resource API every other time
+    frames = rng.random() < 0.33
+    if frames: setup.append("on p %d rem:0 rem:1 res:0 res:1" % rng.randrange(g.ndefs))
     out.append("top acts %d" % len(setup)); out += setup
     for _ in range(rng.randint(3, 7)):
         sc = batch(1, 3)
         out.append("top acts %d" % len(sc)); out += sc
         if rng.random() < 0.15: out.append("top frameend")
+        if frames and rng.random() < 0.6:
+            if rng.random() < 0.7: out.append("top update")
+            for _ in range(rng.randint(1, 3)):
+                ty = rng.randrange(NTY); x = rng.random()
+                out.append("top acts 1")
+                out.append("resmut %d" % ty if x < 0.6 else "resnr %d %d" % (ty, rng.randrange(3)) if x < 0.8 else "resread %d" % ty)
     out.append("top frameend")
     return "\n".join(out) + "\n"
+
+def gen_wr(rng):
+    """C16/C06: the mixed generator with world reactors, half of the time followed by a directed tail: a despawn trigger
+    (and others) added to world reactor 0, then — in one batch, so before the next poll — the entity despawned and the
+    trigger removed again, in either order; or the removal first and the despawn in a later batch."""
+    text = gen_mix(rng, wr_prob=1.0, weights=dict(wr=4), body_weights=dict(wr=2))
+    if rng.random() < 0.5: return text
+    e = "e%d" % rng.randrange(3)
+    extra = rng.choice(["", " bc:0", " res:1", " emut:%s:0" % e])
+    out = ["top acts 1", "wradd 0 dsp:%s%s" % (e, extra)]
+    x = rng.random()
+    if x < 0.5: out += ["top acts 2", "despawn %s" % e, "wrremove 0 dsp:%s" % e]
+    elif x < 0.75: out += ["top acts 2", "wrremove 0 dsp:%s" % e, "despawn %s" % e]
+    else: out += ["top wdespawn %s" % e, "top acts 1", "wrremove 0 dsp:%s" % e]
+    out += ["top frameend"]
+    if rng.random() < 0.5: out += ["top acts 1", "broadcast 0 99", "top frameend"]
+    return text + "\n".join(out) + "\n"
 
 def gen_cascade(rng):
     """C11/C08: chains of polled reactions: the reactor of `despawn(e_k)` / `removal(e_k)` despawns e_{k+1} or removes its
@@ -1023,7 +1050,7 @@ def gen_syscall(rng):
 PROFILES = {
     "mix": lambda rng: gen_mix(rng),
     "big": lambda rng: gen_mix(rng, size=2.0),
-    "wr": lambda rng: gen_mix(rng, wr_prob=1.0, weights=dict(wr=4), body_weights=dict(wr=2)),
+    "wr": lambda rng: gen_wr(rng),
     "recursion": lambda rng: gen_mix(rng, size=1.5, body_weights=dict(control=8, trigger=6, register=0.5, life=0.5), weights=dict(control=5, trigger=5)),
     "lifetime": lambda rng: gen_mix(rng, weights=dict(register=4, revoke=4, life=3, trigger=3), body_weights=dict(revoke=2, life=2, register=2)),
     "signals": gen_signals,
